@@ -35,6 +35,7 @@ const (
 	tokenSpc      = 'G'
 	tokenColon    = 'I'
 	tokenNlColon  = 'J'
+	tokenQuote    = 'Q'
 	numDigit      = 'N'
 	numZero       = 'O'
 	strOk         = 'R'
@@ -60,7 +61,7 @@ const (
 	//   0123456789abcdef0123456789abcdef
 	tokenMap = "" +
 		".........GJ..G.................." + // 0x00
-		"G...u...dpuuGuucuuuuuuuuuuI.u.uu" + // 0x20
+		"G.Q.u..QdpuuGuucuuuuuuuuuuI.u.uu" + // 0x20
 		"uuuuuuuuuuuuuuuuuuuuuuuuuuuk.muu" + // 0x40
 		".uuuuuuuuuuuuuuuuuuuuuuuuuul.nu." + // 0x60
 		"uuuuuuuuuuuuuuuuuuuuuuuuuuuuuuuu" + // 0x80
